@@ -566,6 +566,16 @@ func Pre() {
 	}
 }
 
+// RaceRelease / RaceAcquire let harness stubs that stand for something the
+// detector cannot see (a network connection's kernel buffers) state the
+// ordering the real thing provides. No-ops outside the race build.
+//
+//go:norace
+func RaceRelease(p unsafe.Pointer) { raceReleaseMerge(p) }
+
+//go:norace
+func RaceAcquire(p unsafe.Pointer) { raceAcquire(p) }
+
 // WaitQuiescent parks the calling (harness) goroutine until no other
 // goroutine is enabled at the current virtual instant.
 //
@@ -616,28 +626,34 @@ func GoIn(grp *Group, site string, fn func()) {
 //go:norace
 func (s *Sched) runG(g *G, fn func()) {
 	s.gput(goid(), g)
-	defer func() {
-		if r := recover(); r != nil {
-			s.lock()
-			s.panics = append(s.panics, PanicInfo{G: g.Name, Value: fmt.Sprint(r), Stack: string(debug.Stack())})
-			s.logf("  PANIC in %s: %v", g.Name, r)
-			s.unlock()
-			s.abort("panic in " + g.Name + ": " + fmt.Sprint(r))
-		}
-		s.gget(goid(), true)
-		s.fenceRelease(g)
-		s.lock()
-		g.state = stExited
-		s.unlock()
-		raceDisable()
-		select {
-		case s.arrival <- struct{}{}:
-		default:
-		}
-		raceEnable()
-	}()
+	defer s.exitG(g)
 	s.park(g, stParked, nil, "start:"+g.Name)
 	fn()
+}
+
+// exitG is runG's deferred epilogue (a named method: closures inside a
+// //go:norace function are instrumented all the same).
+//
+//go:norace
+func (s *Sched) exitG(g *G) {
+	if r := recover(); r != nil {
+		s.lock()
+		s.panics = append(s.panics, PanicInfo{G: g.Name, Value: fmt.Sprint(r), Stack: string(debug.Stack())})
+		s.logf("  PANIC in %s: %v", g.Name, r)
+		s.unlock()
+		s.abort("panic in " + g.Name + ": " + fmt.Sprint(r))
+	}
+	s.gget(goid(), true)
+	s.fenceRelease(g)
+	s.lock()
+	g.state = stExited
+	s.unlock()
+	raceDisable()
+	select {
+	case s.arrival <- struct{}{}:
+	default:
+	}
+	raceEnable()
 }
 
 //go:norace
@@ -1013,20 +1029,23 @@ func OnceDo(o *sync.Once, site string, f func()) {
 	}
 	st.running = true
 	s.unlock()
-	defer func() {
-		raceReleaseMerge(unsafe.Pointer(o))
-		s.lock()
-		st.running = false
-		st.done = true
-		for _, g := range s.all {
-			if g.state == stBlocked && g.blockOn == any(o) {
-				g.state = stParked
-				g.blockOn = nil
-			}
-		}
-		s.unlock()
-	}()
+	defer s.onceDone(o, st)
 	f()
+}
+
+//go:norace
+func (s *Sched) onceDone(o *sync.Once, st *onceState) {
+	raceReleaseMerge(unsafe.Pointer(o))
+	s.lock()
+	st.running = false
+	st.done = true
+	for _, g := range s.all {
+		if g.state == stBlocked && g.blockOn == any(o) {
+			g.state = stParked
+			g.blockOn = nil
+		}
+	}
+	s.unlock()
 }
 
 // ---- select ------------------------------------------------------------
